@@ -1,6 +1,7 @@
 """Shared rule: the CELT decoder's per-band energy memories (oldBandE, oldLogE,
 oldLogE2, backgroundLogE) always hold two channel slots when the decoder was
-created for two channels, whatever the current packet's channel count.  Every
+created for two channels, whatever the current packet's channel count (and on
+a mono decoder too: slot 1 is merged back into slot 0 by the next mono frame).  Every
 loop that updates one of them channel by channel (or entry by entry) must
 cover all `st->channels` slots, or be followed by the mono copy of slot 0 into
 slot 1 -- otherwise a slot keeps stale energies that the next stereo packet
@@ -48,7 +49,9 @@ def _resolver(g, C, CC):
     return res
 
 
-def check(rep, rule, prog, fname, minimum_note):
+def check(rep, rule, prog, fname, slots):
+    """slots: 'two' - the memories always hold two channel slots (a mono decoder merges slot 1 back into slot 0
+    at the next mono frame, so it matters even there); 'CC' - every channel the decoder outputs"""
     g = prog.fn(fname)
     rep.functions.add(g.name)
     cg = cfgm.CFG(g)
@@ -108,7 +111,8 @@ def check(rep, rule, prog, fname, minimum_note):
             bad = []
             for C, CC in ((1, 1), (1, 2), (2, 2)):
                 v = decide.ev3(cc[3], {}, _resolver(g, C, CC))
-                need = CC * NB if shape == 'flat' else CC
+                nslots = 2 if slots == 'two' else CC
+                need = nslots * NB if shape == 'flat' else nslots
                 if v is None:
                     bad.append(('?', C, CC, None))
                 elif v < need:
@@ -124,8 +128,8 @@ def check(rep, rule, prog, fname, minimum_note):
                 rep.unresolved(rule, inst + ': loop bound `%s` could not be evaluated' % sx.show(cc[3]))
             elif bad and not comp:
                 k, C, CC, v = bad[0]
-                rep.violated(rule, inst, where, 'with stream_channels=%d on a %d-channel decoder the bound `%s` is %s (%s needed) and no later copy of slot 0 into slot 1 follows: slot 1 keeps stale energies' % (
-                    C, CC, sx.show(cc[3]), v, need), key='%s:%s:%s' % (fname, S[aid], shape))
+                rep.violated(rule, inst, where, 'with stream_channels=%d on a %d-channel decoder the bound `%s` is %s and no later copy of slot 0 into slot 1 follows: a slot keeps stale energies' % (
+                    C, CC, sx.show(cc[3]), v), key='%s:%s:%s' % (fname, S[aid], shape))
             else:
                 rep.holds(rule, inst, where, 'bound `%s`%s' % (sx.show(cc[3]), '; short for mono but followed by the slot-0 -> slot-1 copy' if bad else ''))
     return n
